@@ -818,6 +818,12 @@ impl<'tcx> Cx<'tcx> {
                         }
                     }
                     o.push(("derived", J::B(tcx.is_automatically_derived(d))));
+                    // where-clauses of the impl (as text): lets rules ask e.g. whether a type parameter is bound by `Unsigned`
+                    let mut preds = vec![];
+                    for (clause, _) in tcx.predicates_of(d).predicates.iter() {
+                        preds.push(s(np(|| format!("{}", clause))));
+                    }
+                    o.push(("preds", J::A(preds)));
                     let mut its = vec![];
                     for it in tcx.associated_items(d).in_definition_order() {
                         its.push(J::O(vec![
